@@ -14,6 +14,43 @@ Open Scope Z_scope.
 Lemma opt_all_map_Some {A B} (f : A -> B) l : opt_all (map (fun x => Some (f x)) l) = Some (map f l).
 Proof. induction l as [|x l IH]; cbn [map opt_all]; [reflexivity|]. rewrite IH. reflexivity. Qed.
 
+(** ** inserting empty chunks (Reads that return (0, nil)) changes neither the bytes nor
+    the well-formedness of the chunk list *)
+Lemma concat_insert_at n : forall (l : list (list Z)), concat (insert_at n [] l) = concat l.
+Proof.
+  induction n as [|n IH]; intros l; [reflexivity|].
+  destruct l as [|y t]; [reflexivity|]. cbn [insert_at concat]. rewrite IH. reflexivity.
+Qed.
+
+Lemma last_insert_at n : forall (l : list (list Z)) d, (n < length l)%nat -> last (insert_at n [] l) d = last l d.
+Proof.
+  induction n as [|n IH]; intros l d Hn.
+  - destruct l; [cbn in Hn; lia|]. reflexivity.
+  - destruct l as [|y t]; [cbn in Hn; lia|]. cbn [insert_at].
+    cbn [length] in Hn. assert (Hn' : (n < length t)%nat) by lia.
+    destruct t as [|z t']; [cbn in Hn'; lia|].
+    specialize (IH (z :: t') d Hn').
+    destruct n; cbn [insert_at] in *; cbn [last] in *; exact IH.
+Qed.
+
+Lemma insert_empties_ok : forall pos cs,
+  all_nonneg pos = true -> chunks_ok cs ->
+  concat (insert_empties pos cs) = concat cs /\ chunks_ok (insert_empties pos cs).
+Proof.
+  unfold insert_empties.
+  induction pos as [|p pos IH]; intros cs Hpos Hok; [split; [reflexivity|assumption]|].
+  cbn [all_nonneg forallb] in Hpos. apply andb_prop in Hpos. destruct Hpos as [Hp Hpos].
+  cbn [fold_left]. destruct cs as [|c cs'].
+  - apply IH; assumption.
+  - set (l := c :: cs') in *.
+    assert (Hl : 0 < zlen l) by (unfold l; rewrite zlen_cons; pose proof (zlen_nonneg cs'); lia).
+    pose proof (Z.mod_pos_bound p (zlen l) Hl) as Hm.
+    assert (Hn : (Z.to_nat (p mod zlen l) < length l)%nat) by (unfold zlen in *; lia).
+    destruct (IH (insert_at (Z.to_nat (p mod zlen l)) [] l) Hpos) as [H1 H2].
+    + unfold chunks_ok. rewrite last_insert_at by assumption. exact Hok.
+    + split; [|exact H2]. fold (all_nonneg pos) in Hpos. rewrite H1. apply concat_insert_at.
+Qed.
+
 Section Ops.
   Variable kind : Z.
   Hypothesis Hkind : kind = 0 \/ kind = 1.
@@ -96,6 +133,26 @@ Section Ops.
     destruct (chunks_of_ok pat (wire_of (k_enc kind) ms) Hpat) as [Hc Hok].
     rewrite (c_Stream_frames kind Hkind (term_of 0 wl) eq_refl ms _ Hwf Hok Hc Hlen).
     rewrite per_figures by assumption. reflexivity.
+  Qed.
+
+  (** pbcmpl.Roundtrip/empties *)
+  Theorem op_Roundtrip_empties ms pat wl pos :
+    Forall msg_wf ms -> all_pos pat = true -> all_nonneg pos = true ->
+    zlen (wire_of (k_enc kind) ms) < 2 ^ 63 ->
+    match model_wire kind ms with
+    | None => VPanic
+    | Some wire =>
+        match c_Stream kind (insert_empties pos (chunks_of pat wire), term_of 0 wl) with
+        | None => VPanic
+        | Some (steps, r') => VL [vzs wire; VL (map v_step steps); vzs (rd_bytes r')]
+        end
+    end = VL [vzs (wire_of (k_enc kind) ms); VL (map v_step (frames_steps (k_enc kind) 0 ms)); vzs []].
+  Proof.
+    intros Hwf Hpat Hpos Hlen. rewrite model_wire_wf by assumption.
+    destruct (chunks_of_ok pat (wire_of (k_enc kind) ms) Hpat) as [Hc Hok].
+    destruct (insert_empties_ok pos _ Hpos Hok) as [Hc' Hok'].
+    rewrite (c_Stream_frames kind Hkind (term_of 0 wl) eq_refl ms _ Hwf Hok'); [reflexivity| |assumption].
+    rewrite Hc'. exact Hc.
   Qed.
 
   (** pbcmpl.Walk/frames *)
